@@ -269,7 +269,7 @@ func setStackFor(src string) {
 
 var hungLimit = func() time.Duration {
 	n := 20
-	if v := os.Getenv("ZV_HUNG_S"); v != "" { // development aid
+	if v := os.Getenv("ZV_HUNG_S"); v != "" { // the confirming re-execution of a rejected case asks for a longer limit (lib/props/C01.py)
 		fmt.Sscanf(v, "%d", &n)
 	}
 	return time.Duration(n) * time.Second
